@@ -206,4 +206,95 @@ example : ∀ w : Vec3 Rat, Vec3.normSq w = 1 → 0 ≤ quadForm ex2C w ∧ quad
   fun w hw => rayleigh_unit (ex2EighContract ex2C ⟨0, 0, 2⟩ ⟨0, 0, 1, 1, 0, 0, 0, 1, 0⟩ (by decide +kernel)) (lo := 0) (hi := 2)
     ⟨le_refl _, le_refl _, by norm_num⟩ ⟨by norm_num, by norm_num, le_refl _⟩ w hw
 
+/-! --------------------------------------------------------------------------------------------------------------------
+  APPENDED SECTION — the contact atoms are those of the RESULT table; keyword selections.
+  `get_contact_atoms` returns the same rows for a table and for its image under a rigid motion (C11 `isometry_invariant_contacts`),
+  and what `Model.alignPcaVect` returns is such an image, so the statement about `align_interface` reads on the result table alone.
+  For `align`, a `**kwargs` that denotes C03 keyword conditions naming none of x, y, z does not look at coordinates.
+-/
+theorem alignPcaVect_rigid : type_of% @Proofs.GenAlign.alignPcaVect_rigid := @Proofs.GenAlign.alignPcaVect_rigid
+theorem contactAtoms_move : type_of% @Proofs.GenAlign.contactAtoms_move := @Proofs.GenAlign.contactAtoms_move
+/-- **the generated `align_interface`: the normal of the plane carries the least variance of the contact atoms recomputed on the result table** -/
+theorem gena_align_interface_principal_axis_result : type_of% @Proofs.GenAlign.gena_align_interface_principal_axis_result :=
+  @Proofs.GenAlign.gena_align_interface_principal_axis_result
+theorem coordBlind_of_keywords : type_of% @Proofs.GenAlign.coordBlind_of_keywords := @Proofs.GenAlign.coordBlind_of_keywords
+/-- **the generated `align`, selection by keywords that do not name x, y, z** -/
+theorem gena_align_principal_axis_keywords : type_of% @Proofs.GenAlign.gena_align_principal_axis_keywords :=
+  @Proofs.GenAlign.gena_align_principal_axis_keywords
+
+/-! ### non-vacuity -/
+
+/-- `chainID='A'` as C03 conditions: names no coordinate column, and is what `ex2Sel` tests -/
+def ex2Q : List Spec.Cond := [⟨.std .chainID, false, [.text ['A']]⟩]
+theorem ex2Q_noXYZ : NoXYZ ex2Q := by
+  intro c hc
+  simp only [ex2Q, List.mem_singleton] at hc
+  subst hc
+  exact ⟨by decide, by decide, by decide⟩
+theorem ex2Q_sel : ∀ a i, ex2Sel (a, i) = Spec.sat [] ex2Q ({ atom := a }, i) := by
+  intro a i
+  simp only [ex2Sel, ex2Q, Spec.sat, List.all_cons, List.all_nil, Bool.and_true, Proofs.GenContacts.holds_chainID]
+
+example : LargestVarianceAlong (getXYZ (selOf ex2Sel) ex2Table') (e2 : Vec3 Rat) :=
+  (gena_align_principal_axis_keywords exCast exCtor ex2Cov ex2Eigh exNorm exAtan exAcos covContract_scatter ex2EighContract ex2Trig
+    () "y" false ex2Sel ex2Q ex2Q_noXYZ ex2Q_sel ex2Angles ⟨some ['m', '.', 'p', 'd', 'b'], ex2Table'⟩ [] (by decide +kernel)
+    e2 (by decide)).1
+
+/-- a flat interface: chains A and B in the plane z = 0, every atom in contact at cutoff 3 -/
+def ex3Table : List Atom := [exAtom 1 ['A'] 0 0 0, exAtom 2 ['A'] 2 0 0, exAtom 3 ['B'] 0 2 0, exAtom 4 ['B'] 2 2 0]
+def ex3Db : GenA.Rt.Db := ⟨none, ex3Table⟩
+def ex3Cast : Unit → Option GenA.Rt.Db := fun _ => some ex3Db
+/-- `eigh` on the scatter matrix diag(4, 4, 0) of those atoms: eigenvalues (4, 4, 0), the identity -/
+def ex3Eigh : Mat3 Rat → Except Err (Vec3 Rat × Mat3 Rat) :=
+  fun C => if C = ⟨4, 0, 0, 0, 4, 0, 0, 0, 0⟩ then .ok (⟨4, 4, 0⟩, Mat3.one) else .error .valueError
+/-- φ = 1 with (cos, sin) = (1, 0), θ = 5 with (1, 0): the spherical angles of e₃; π = 3 -/
+def ex3Cos (x : Rat) : Rat := if x = 1 ∨ x = -1 ∨ x = 5 ∨ x = -5 then 1 else 0
+def ex3Sin (x : Rat) : Rat := if x = -7 / 2 ∨ x = 1 / 2 then 1 else if x = 7 / 2 then -1 else 0
+
+theorem ex3EighContract : EighContract ex3Eigh := by
+  intro C u V h
+  unfold ex3Eigh at h
+  split_ifs at h with hC
+  simp only [Except.ok.injEq, Prod.mk.injEq] at h
+  obtain ⟨rfl, rfl⟩ := h
+  subst hC
+  refine ⟨⟨?_, ?_⟩, ?_⟩ <;> decide +kernel
+
+theorem ex3Trig : ∀ v, TrigAt ex3Cos ex3Sin 3 (phiOf exAtan v) (thetaOf exNorm exAcos v) := by
+  intro v
+  constructor <;> simp only [phiOf, thetaOf, exAtan, exAcos, ex3Cos, ex3Sin] <;> norm_num
+
+theorem ex3Angles : ∀ sql out v, openDb ex3Cast exCtor () = .ok sql → Model.contactAtoms sql.atoms (kwArgs exKw) = .ok out →
+    GenA.get_min_pca_vect ex2Cov ex3Eigh (getXYZ (fun i _ => decide (i ∈ rowIds out)) sql.atoms) = .ok v →
+    AnglesAt exNorm exAtan exAcos ex3Cos ex3Sin v := by
+  intro sql out v ho hc hv
+  have hs : sql = ex3Db := by
+    have : openDb ex3Cast exCtor () = .ok ex3Db := rfl
+    rw [this] at ho
+    exact (Except.ok.inj ho).symm
+  subst hs
+  have hrun : Model.contactRun ex3Db.atoms (kwArgs exKw) =
+      .ok ([(['A'], [0, 1]), (['B'], [2, 3])], [(0, [2, 3]), (1, [2, 3])]) := by decide +kernel
+  have hout : out = .chains [(['A'], [0, 1]), (['B'], [2, 3])] := by
+    unfold Model.contactAtoms at hc
+    rw [hrun] at hc
+    exact (Except.ok.inj hc).symm
+  subst hout
+  have hmin : GenA.get_min_pca_vect ex2Cov ex3Eigh
+      (getXYZ (fun i _ => decide (i ∈ rowIds (.chains [(['A'], [0, 1]), (['B'], [2, 3])]))) ex3Db.atoms) = .ok ⟨0, 0, 1⟩ := by
+    decide +kernel
+  rw [hmin] at hv
+  cases hv
+  refine ⟨by simp [exNorm], ?_⟩
+  constructor <;> simp only [phiOf, thetaOf, exAtan, exAcos, exNorm, ex3Cos, ex3Sin] <;> norm_num
+
+/-- `align_interface(db, plane='xy', export=False, cutoff=3)` returns (the interface already lies in the plane), every contract
+    hypothesis holds, so e₃ carries the least variance of the contact atoms recomputed on the result table -/
+example : ∃ out', Model.contactAtoms ex3Table (kwArgs exKw) = .ok out' ∧
+    LeastVarianceAlong (getXYZ (fun i _ => decide (i ∈ rowIds out')) ex3Table) (e3 : Vec3 Rat) :=
+  let ⟨out', h1, h2, _⟩ := gena_align_interface_principal_axis_result id Proofs.GenContacts.setOrderOK_id ex3Cast exCtor ex2Cov ex3Eigh
+    exNorm exAtan exAcos covContract_scatter ex3EighContract ex3Trig () "xy" false exKw ex3Angles ⟨none, ex3Table⟩ []
+    (by decide +kernel) e3 (by decide)
+  ⟨out', h1, h2⟩
+
 end Props.C18K2
